@@ -243,12 +243,9 @@ func checkC02(p *Prog, r *Report) {
 	checkErrEdge("flush", fcall, -1)
 	/* Closed input: the !ok edge returns without writing. */
 	if nil != okVal {
-		for _, ref := range *okVal.Referrers() {
-			ifi, ok := ref.(*ssa.If)
-			if !ok {
-				continue
-			}
-			from := Loc{ifi.Block().Succs[1], -1}
+		for _, bt := range boolTestsOf(fn, okVal) {
+			ifi := bt.If
+			from := Loc{ifi.Block().Succs[1-bt.TrueSucc], -1}
 			hit := reachQ{From: from, Target: func(i ssa.Instruction) bool {
 				return i == ssa.Instruction(sel) || (nil != wcall && i == ssa.Instruction(wcall))
 			}}.run()
